@@ -72,7 +72,15 @@ func TestC09Alloc(t *testing.T) {
 		}
 		calls = append(calls, fmt.Sprintf("(%d, %s, %d, %d)", id, cz(decScaled(amt)), binary.BigEndian.Uint64(q), h))
 	})
-	bk.On("SendCoinsFromModuleToModule", mock.Anything, mock.Anything, mock.Anything, mock.Anything).Return(nil)
+	bk.On("SendCoinsFromModuleToModule", mock.Anything, mock.Anything, mock.Anything, mock.Anything).Return(nil).Run(func(args mock.Arguments) {
+		// the coins moved into the tips escrow pool: recorded as a pseudo payment with id -2
+		coins := args.Get(3).(sdk.Coins)
+		amt := new(big.Int)
+		for _, c := range coins {
+			amt.Add(amt, c.Amount.BigInt())
+		}
+		calls = append(calls, fmt.Sprintf("(-2, %s, 0, 0)", cz(amt)))
+	})
 	reps := 4
 	if thorough() {
 		reps = 16
